@@ -356,7 +356,8 @@ def normParts (puny : Str → Str) (o : Opts) (hasProto : Bool) (p : Parsed) : S
 
 /-- lines 433–436 -/
 def finalString (o : Opts) (hasProto : Bool) (r : Split) : Str :=
-  if o.stripProtocol || !hasProto then (urlunsplit r).drop 2 else urlunsplit r
+  let s := urlunsplit r
+  if (o.stripProtocol || !hasProto) && startsWith s ['/', '/'] then s.drop 2 else s
 
 /-- the string that is parsed: redirection, cleaning, `http://`, platform rewriting -/
 def prepared (platform : Str → Str) (inferRedirection : Bool) (url : Str) : Str × Bool :=
@@ -385,9 +386,9 @@ def normalizeUrl (puny : Str → Str) (parse : Str → Option Parsed) (platform 
 /-- `normalize_hostname(hostname, normalize_amp)` -/
 def normalizeHostname (puny : Str → Str) (normalizeAmp : Bool) (hostname : Str) : Str :=
   let h := stripControl (lower (strip hostname))
+  let h := lower (decodePunycodeHostname puny h)
   let h := subdomainSub normalizeAmp h
-  let h := if normalizeAmp && startsWith h ampDash then h.drop 4 else h
-  decodePunycodeHostname puny h
+  if normalizeAmp then stripAmpPrefix puny h else h
 
 /-- `get_normalized_hostname(url, normalize_amp, infer_redirection)`; `hostOf s` is
 `urlsplit(s).hostname` (`none` for `ValueError` and for `None`) -/
